@@ -21,6 +21,14 @@ def probe(dictionary, k, with_user, wd):
         if st != "ok" or not r.get("candidates"):
             failed.append(f"GetCandidates is not answered within 10 s ({st})")
             return failed
+        # the Emacs client keeps a WebSocket connection open: 40 such clients at once are all served, whatever the worker count
+        wss = [WsClient(s.port) for _ in range(40)]
+        refused = [w.status for w in wss if not w.ok]
+        unanswered = [1 for w in wss if w.ok and w.call("GetCandidates", {"input": "くるま"})[0] != "ok"]
+        for w in wss:
+            w.close()
+        if refused or unanswered:
+            failed.append(f"{len(refused)} of 40 simultaneous WebSocket clients are refused ({refused[:1]}) and {len(unanswered)} get no answer")
         # the same service whatever the configuration: 40 further conversions do not disturb the first one's session
         for _ in range(40):
             s.call("GetCandidates", {"input": "くるま"}, timeout=10)
